@@ -232,6 +232,12 @@ func C12() *sim.Check {
 		if expensive {
 			c.St.Inc("expensive_inputs_sampled_only")
 		}
+		// ... and so is a very large one (a megabyte of AFM text has more than a
+		// million split positions at tens of milliseconds each)
+		if n > 40_000 {
+			expensive = true
+			c.St.Inc("large_inputs_sampled_only")
+		}
 		if !expensive && (c.Tier == "thorough" || n <= 400) {
 			for p := 0; p <= n; p++ {
 				ps = append(ps, p)
@@ -242,10 +248,13 @@ func C12() *sim.Check {
 			if expensive {
 				k = 12
 			}
+			if n > 40_000 && !strings.Contains(refErr, "ErrExecutionLimitExceeded") {
+				k = 400
+			}
 			for i := 0; i < k; i++ {
 				ps = append(ps, t.Choose(n+1))
 			}
-			if expensive {
+			if expensive && n <= 40_000 {
 				in.Marks = nil
 			}
 			for _, m := range in.Marks {
